@@ -3,6 +3,7 @@ package harness
 import (
 	"fmt"
 	"regexp"
+	"slices"
 	"strconv"
 	"strings"
 	"time"
@@ -551,6 +552,95 @@ func c19Semantics(r *run.Run) {
 		})
 }
 
+// c19Gsub1Semantics: "list -> list" in a single-substitution lookup pairs the glyphs of the two lists up
+// position by position, whatever notation (names, quoted string, range) either list is written in.
+func c19Gsub1Semantics(r *run.Run) {
+	font := c19Font(true)
+	glyphs := []glyph.ID{gen.GA, gen.GB, gen.GC, gen.GL} // ids 1..4: consecutive, so that ranges exist
+	targets := []glyph.ID{gen.GA, gen.GB, gen.GC, gen.GL, gen.GX}
+	name := func(g glyph.ID) string { return gen.GlyphNames[g] }
+	render := func(seq []glyph.ID, notation int) (string, bool) {
+		switch notation {
+		case 0:
+			var parts []string
+			for _, g := range seq {
+				parts = append(parts, name(g))
+			}
+			return strings.Join(parts, " "), true
+		case 1:
+			out := `"`
+			for _, g := range seq {
+				out += name(g)
+			}
+			return out + `"`, true
+		default: // a range, if the glyph ids run up or down in steps of one
+			if len(seq) < 2 {
+				return "", false
+			}
+			d := int(seq[1]) - int(seq[0])
+			if d != 1 && d != -1 {
+				return "", false
+			}
+			for i := 1; i < len(seq); i++ {
+				if int(seq[i])-int(seq[i-1]) != d {
+					return "", false
+				}
+			}
+			return name(seq[0]) + "-" + name(seq[len(seq)-1]), true
+		}
+	}
+	var froms [][]glyph.ID
+	var perm func(cur []glyph.ID)
+	perm = func(cur []glyph.ID) {
+		if len(cur) > 0 {
+			froms = append(froms, append([]glyph.ID{}, cur...))
+		}
+		if len(cur) == 3 {
+			return
+		}
+		for _, g := range glyphs {
+			if !slices.Contains(cur, g) {
+				perm(append(cur, g))
+			}
+		}
+	}
+	perm(nil)
+	r.Explore(explore.Config{Name: "C19.gsub1-semantics"},
+		fmt.Sprintf("GSUB1 rules 'list -> list': all %d source lists of 1..3 distinct glyphs over {A,B,C,L} x all target lists of the same length over {A,B,C,L,X} x the notations {names, quoted string, range (where the ids are consecutive, up or down)} for either side: the parsed lookup maps the i-th source glyph to the i-th target glyph", len(froms)),
+		func(c *explore.Ctx) {
+			from := froms[c.Choose(len(froms), "source list")]
+			var to []glyph.ID
+			for range from {
+				to = append(to, targets[c.Choose(len(targets), "target glyph")])
+			}
+			fs, ok1 := render(from, c.Choose(3, "source notation"))
+			ts, ok2 := render(to, c.Choose(3, "target notation"))
+			if !ok1 || !ok2 {
+				c.Skip("not a range")
+			}
+			text := "GSUB1: " + fs + " -> " + ts
+			c.Sample(func() any { return text })
+			c.Nontrivial()
+			c.Outcome(text)
+			got, err := builder.Parse(font, text)
+			if err != nil {
+				c.Fail("C19.semantics", "gsub1 lists / parse error", "Parse(%q) fails: %v", text, err)
+				return
+			}
+			want := &gtab.Gsub1_2{Cov: coverage.Table{}}
+			order := append([]glyph.ID{}, from...)
+			slices.Sort(order)
+			for i, g := range order {
+				want.Cov[g] = i
+				want.SubstituteGlyphIDs = append(want.SubstituteGlyphIDs, to[slices.Index(from, g)])
+			}
+			wl := gtab.LookupList{gen.MakeLookup(1, gen.Flags[0], []gtab.Subtable{want})}
+			if a, b := c19Canon(wl), c19Canon(got); a != b {
+				c.Fail("C19.semantics", "gsub1 lists / meaning", "Parse(%q) gives\n%s want\n%s", text, b, a)
+			}
+		})
+}
+
 func init() {
 	Register("C19", func(r *run.Run) {
 		r.Rule = "the goroutines of the parser (lexer, string decoder, parser) run under a cooperative scheduler whose scheduling points are the channel operations and goroutine starts (source rewritten at check time); every schedule within the preemption bound is explored for every input of bounded token-string enumerations and single-token mutations of the repository's descriptions; round trip Parse(Explain(L)) over the lookup generator"
@@ -630,6 +720,7 @@ func init() {
 		c19RoundTrip(r)
 		c19LargePart(r)
 		c19Semantics(r)
+		c19Gsub1Semantics(r)
 		if !r.Replaying() || r.ReplayOf("C19.race") != nil {
 			racePass(r, "C19", "race19.bin", []string{r.Tier}, "free-running goroutines (the repository's own builder sources, no scheduler rewrite) under the Go race detector, 8 concurrent Parse calls, GOMAXPROCS 1, 2, 4, 16; watchdog; goroutine count back to baseline after every batch; results compared across GOMAXPROCS",
 				"the repository's descriptions, their single-token mutations and the token strings, every input under every GOMAXPROCS setting: no data race (accesses the cooperative scheduler cannot see), same result, no goroutine left running, no hang")
